@@ -4,6 +4,9 @@ import glob, json, os, re, struct, time
 from vlib import *
 import vshape
 
+def _enough(ctx):
+    return len([v for v in ctx.violations if v[0] not in ("correspondence", "proof")]) > 4
+
 def _outs(ctx):
     for f in sorted(glob.glob(os.path.join(ctx.work, "*", "*.cmds"))):
         yield f, read_cmds(f), load_lines(f[:-5] + ".out")
@@ -54,7 +57,7 @@ def extra_codec(ctx):
             if _abs_value(kind, dec) != val or (val[0] == 0 and kind[0] == "f" and dec != key):
                 report_violation(ctx, "oracle", "Restore(Transform(x)) != x", {"commands": [c], "implementation": out[i]}, "codec-rt-%d" % i)
             per.setdefault((kind, t[2]), {})[enc] = (val, key, c)
-            if len(ctx.violations) > 4:
+            if _enough(ctx):
                 return {}
     pairs = 0
     for (kind, variant), m in per.items():
@@ -129,7 +132,7 @@ def extra_node(ctx):
                 if out[i] != "%s %d" % (t[0], r):
                     report_violation(ctx, "oracle", "vector routine differs from the scalar scan over the occupied slots",
                                      {"commands": [c], "implementation": out[i], "required": "%s %d" % (t[0], r)}, "node16-%d" % i)
-            if len(ctx.violations) > 4:
+            if _enough(ctx):
                 return {}
     return {"probes_checked_by_scalar_oracle": probes}
 
@@ -157,7 +160,7 @@ def extra_shape(ctx):
             if errs:
                 report_violation(ctx, "oracle", "index not well-formed after an operation: " + "; ".join(errs[:3]),
                                  {"commands": history_of(cmds, i), "implementation": out[i][:2000]}, "wf-%s-%d" % (os.path.basename(f)[:-5], i))
-                if len(ctx.violations) > 4:
+                if _enough(ctx):
                     return {}
     return {"dumps_checked_by_wellformedness_oracle": n, "node_classes_seen_in_dumps": classes}
 
